@@ -206,3 +206,32 @@ void harness_parse_numb_bounded(void) {
     }
     free(n);
 }
+
+/* ---- is_zero / compare_half: the tie / above / below decision behind every rounding (C10) ---------------------------- */
+struct in_half { uint32_t words[MAXW]; size_t wd, lsd; uint32_t cv; };
+DECL_IN(in_half)
+static int spec_tail_zero(const uint32_t *w, size_t a, size_t b) { for (size_t k = 0; k < MAXW; k++) if (k > a && k <= b && w[k] != 0) return 0; return 1; }
+void harness_compare_half(void) {
+    struct in_half in = GET_IN(in_half);
+    PRE(in.wd <= in.lsd && in.lsd < MAXW);
+    uint32_t *w = malloc(MAXW * sizeof(uint32_t)); PRE(w != NULL);
+    for (size_t k = 0; k < MAXW; k++) w[k] = in.words[k];
+    g_words = w;
+    int r = compare_half(in.cv, w + in.wd, w + in.lsd);
+    int tz = spec_tail_zero(in.words, in.wd, in.lsd);
+    int want = in.cv < 500000000u ? -1 : ((in.cv == 500000000u && tz) ? 0 : 1);
+    POST((r < 0) == (want < 0) && (r == 0) == (want == 0), "C10 tail compared correctly with one half (tie / above / below) - the decision behind round-half-even");
+    if (want == 0) REACH("tie"); if (want > 0) REACH("above"); if (want < 0) REACH("below");
+    free(w);
+}
+void harness_is_zero(void) {
+    struct in_half in = GET_IN(in_half);
+    PRE(in.wd <= in.lsd && in.lsd < MAXW);
+    uint32_t *w = malloc(MAXW * sizeof(uint32_t)); PRE(w != NULL);
+    for (size_t k = 0; k < MAXW; k++) w[k] = in.words[k];
+    g_words = w;
+    int r = is_zero(in.cv, w + in.wd, w + in.lsd);
+    POST((r != 0) == (in.cv == 0 && spec_tail_zero(in.words, in.wd, in.lsd)), "C10 is_zero = the whole tail is zero");
+    if (r) REACH("zero"); else REACH("nonzero");
+    free(w);
+}
